@@ -1,9 +1,160 @@
-(* C07 -- regularization matrices (statements only). *)
+(* C07 -- Regularization matrices are symmetric positive (semi-)definite with the stated quadratic form.
+   Statements only; every proof is [exact <lemma of Proofs/C07.v>].  All statements are about the executable
+   model coq/Model/C07.v instantiated at the real numbers (ROps); the ridge 1e-8 is the parameter [eps].
+   [quad H x] is x^T H x, [mget H a b] is H[a,b];
+   [nb_ok nb]: every neighbour index is in range and the neighbour relation is symmetric (as a multiset of
+   ordered pairs); [upairs nb] are the neighbouring pairs (i,k), i < k, with multiplicity. *)
 From Coq Require Import ZArith List Bool Reals.
 From PAV Require Import Base.Res Base.NumOps Base.Sum Model.C07 Proofs.C07.
 Import ListNotations.
+Local Open Scope R_scope.
 
-Theorem C07_madd_keeps_rows : forall (M : @mat ROps) i j v, length (madd M i j v) = length M.
-Proof. exact (@madd_length ROps). Qed.
+(* ---------------- Constant: x^T H x = c^2 * sum over neighbouring pairs (x_i - x_k)^2 + eps |x|^2 ---------------- *)
+Theorem C07_constant_quadratic_form : forall (eps c : R) nb (x : list R),
+  nb_ok nb = true -> length x = length nb ->
+  @quad ROps (@constant_matrix ROps eps c nb) x = @qf_constant ROps eps c nb x.
+Proof. exact T_constant_qf. Qed.
+Theorem C07_qf_constant_meaning : forall (eps c : R) nb (x : list R),
+  @qf_constant ROps eps c nb x =
+  c * c * sumR (map (fun p => (nth (fst p) x 0 - nth (snd p) x 0) * (nth (fst p) x 0 - nth (snd p) x 0)) (upairs nb))
+  + eps * sumR (map (fun v => v * v) x).
+Proof. exact qf_constant_meaning. Qed.
+Theorem C07_constant_size : forall (eps c : R) nb,
+  length (@constant_matrix ROps eps c nb) = length nb /\ Forall (fun r => length r = length nb) (@constant_matrix ROps eps c nb).
+Proof. exact T_constant_size. Qed.
+Theorem C07_constant_symmetric : forall (eps c : R) nb, nb_ok nb = true ->
+  forall a b, (a < length nb)%nat -> (b < length nb)%nat ->
+  @mget ROps (@constant_matrix ROps eps c nb) a b = @mget ROps (@constant_matrix ROps eps c nb) b a.
+Proof. exact T_constant_sym. Qed.
+Theorem C07_constant_positive_definite : forall (eps c : R) nb (x : list R),
+  0 < eps -> nb_ok nb = true -> length x = length nb -> (exists i, nth i x 0 <> 0) ->
+  0 < @quad ROps (@constant_matrix ROps eps c nb) x.
+Proof. exact T_constant_pd. Qed.
 
-Print Assumptions C07_madd_keeps_rows.
+(* ---------------- ConstantZeroth: the same plus cz^2 |x|^2 ---------------- *)
+Theorem C07_constant_zeroth_quadratic_form : forall (eps c cz : R) nb (x : list R),
+  nb_ok nb = true -> length x = length nb ->
+  @quad ROps (@constant_zeroth_matrix ROps eps c cz nb) x = @qf_constant ROps eps c nb x + cz * cz * @norm2 ROps x.
+Proof. exact T_constant_zeroth_qf. Qed.
+Theorem C07_constant_zeroth_size : forall (eps c cz : R) nb,
+  length (@constant_zeroth_matrix ROps eps c cz nb) = length nb
+  /\ Forall (fun r => length r = length nb) (@constant_zeroth_matrix ROps eps c cz nb).
+Proof. exact T_constant_zeroth_size. Qed.
+Theorem C07_constant_zeroth_symmetric : forall (eps c cz : R) nb, nb_ok nb = true ->
+  forall a b, (a < length nb)%nat -> (b < length nb)%nat ->
+  @mget ROps (@constant_zeroth_matrix ROps eps c cz nb) a b = @mget ROps (@constant_zeroth_matrix ROps eps c cz nb) b a.
+Proof. exact T_constant_zeroth_sym. Qed.
+Theorem C07_constant_zeroth_positive_definite : forall (eps c cz : R) nb (x : list R),
+  0 < eps -> nb_ok nb = true -> length x = length nb -> (exists i, nth i x 0 <> 0) ->
+  0 < @quad ROps (@constant_zeroth_matrix ROps eps c cz nb) x.
+Proof. exact T_constant_zeroth_pd. Qed.
+
+(* ---------------- Zeroth: H = c^2 I (no ridge in the code): PSD always, PD iff c <> 0 ---------------- *)
+Theorem C07_zeroth_quadratic_form : forall (c : R) n (x : list R), length x = n ->
+  @quad ROps (@zeroth_matrix ROps c n) x = c * c * sumR (map (fun v => v * v) x).
+Proof. exact T_zeroth_qf. Qed.
+Theorem C07_zeroth_size_symmetric : forall (c : R) n,
+  (length (@zeroth_matrix ROps c n) = n /\ Forall (fun r => length r = n) (@zeroth_matrix ROps c n))
+  /\ forall a b, (a < n)%nat -> (b < n)%nat -> @mget ROps (@zeroth_matrix ROps c n) a b = @mget ROps (@zeroth_matrix ROps c n) b a.
+Proof. exact (fun c n => conj (T_zeroth_size c n) (T_zeroth_sym c n)). Qed.
+Theorem C07_zeroth_positive_definite : forall (c : R) n (x : list R),
+  c <> 0 -> length x = n -> (exists i, nth i x 0 <> 0) -> 0 < @quad ROps (@zeroth_matrix ROps c n) x.
+Proof. exact T_zeroth_pd. Qed.
+
+(* ---------------- AdaptiveBrightness: pair (i,k) weighted by w_i^2 + w_k^2, w = the reported weights ---------------- *)
+Theorem C07_weighted_quadratic_form : forall (eps : R) (w : list R) nb (x : list R),
+  wnb_ok w nb = true -> length x = length w ->
+  @quad ROps (@weighted_matrix ROps eps w nb) x = @qf_weighted ROps eps w nb x.
+Proof. exact T_weighted_qf. Qed.
+Theorem C07_qf_weighted_meaning : forall (eps : R) (w : list R) nb (x : list R),
+  @qf_weighted ROps eps w nb x =
+  sumR (map (fun p => (nth (fst p) w 0 * nth (fst p) w 0 + nth (snd p) w 0 * nth (snd p) w 0)
+                      * ((nth (fst p) x 0 - nth (snd p) x 0) * (nth (fst p) x 0 - nth (snd p) x 0))) (upairs nb))
+  + eps * sumR (map (fun v => v * v) x).
+Proof. exact qf_weighted_meaning. Qed.
+Theorem C07_weighted_size : forall (eps : R) (w : list R) nb,
+  length (@weighted_matrix ROps eps w nb) = length w /\ Forall (fun r => length r = length w) (@weighted_matrix ROps eps w nb).
+Proof. exact T_weighted_size. Qed.
+Theorem C07_weighted_symmetric : forall (eps : R) (w : list R) nb, wnb_ok w nb = true ->
+  forall a b, (a < length w)%nat -> (b < length w)%nat ->
+  @mget ROps (@weighted_matrix ROps eps w nb) a b = @mget ROps (@weighted_matrix ROps eps w nb) b a.
+Proof. exact T_weighted_sym. Qed.
+Theorem C07_weighted_positive_definite : forall (eps : R) (w : list R) nb (x : list R),
+  0 < eps -> wnb_ok w nb = true -> length x = length w -> (exists i, nth i x 0 <> 0) ->
+  0 < @quad ROps (@weighted_matrix ROps eps w nb) x.
+Proof. exact T_weighted_pd. Qed.
+(* the weights AdaptiveBrightness reports: one per pixel signal, non-negative (they are squares) *)
+Theorem C07_adaptive_weights : forall (inner outer : R) (s : list R),
+  length (@adaptive_weights ROps inner outer s) = length s /\ Forall (fun w => 0 <= w) (@adaptive_weights ROps inner outer s).
+Proof. exact T_adaptive_weights. Qed.
+
+(* ---------------- BrightnessZeroth: diag(w_i^2): symmetric PSD (singular where a weight vanishes) ---------------- *)
+Theorem C07_brightness_zeroth_quadratic_form : forall (w x : list R), length x = length w ->
+  @quad ROps (@bz_matrix ROps w) x = sumR (map (fun wx => fst wx * fst wx * (snd wx * snd wx)) (combine w x)).
+Proof. exact T_bz_qf. Qed.
+Theorem C07_brightness_zeroth_psd : forall (w x : list R), length x = length w -> 0 <= @quad ROps (@bz_matrix ROps w) x.
+Proof. exact T_bz_psd. Qed.
+Theorem C07_brightness_zeroth_size_symmetric : forall (w : list R),
+  (length (@bz_matrix ROps w) = length w /\ Forall (fun r => length r = length w) (@bz_matrix ROps w))
+  /\ forall a b, (a < length w)%nat -> (b < length w)%nat -> @mget ROps (@bz_matrix ROps w) a b = @mget ROps (@bz_matrix ROps w) b a.
+Proof. exact (fun w => conj (T_bz_size w) (T_bz_sym w)). Qed.
+
+(* ---------------- assembly over the linear objects ---------------- *)
+(* entry (a,b) of the assembled matrix: inside the block of the object that owns both a and b (blocks taken in
+   the order of the list), zero elsewhere *)
+Theorem C07_block_placement_in_order : forall (Bs : list (list (list R))),
+  Forall (fun B => Forall (fun r => length r = length B) B) Bs ->
+  forall a b, @mget ROps (@block_diag ROps Bs) a b = @block_entry ROps Bs a b.
+Proof. exact T_block_entry. Qed.
+Theorem C07_assembly_size : forall (Bs : list (list (list R))),
+  Forall (fun B => Forall (fun r => length r = length B) B) Bs ->
+  length (@block_diag ROps Bs) = total Bs /\ Forall (fun r => length r = total Bs) (@block_diag ROps Bs).
+Proof. exact T_block_size. Qed.
+Theorem C07_none_is_zero_block : forall p a b, @mget ROps (@obj_matrix ROps (p, None)) a b = 0.
+Proof. exact none_block_zero. Qed.
+Theorem C07_none_block_size : forall p,
+  length (@obj_matrix ROps (p, None)) = p /\ Forall (fun r => length r = p) (@obj_matrix ROps (p, None)).
+Proof. exact none_block_size. Qed.
+(* x^T H x of the assembly is the sum of the blocks' quadratic forms on the corresponding slices of x: the
+   assembly is PSD when every block is *)
+Theorem C07_assembly_quadratic_form : forall (Bs : list (list (list R))),
+  Forall (fun B => Forall (fun r => length r = length B) B) Bs ->
+  forall x, @quad ROps (@block_diag ROps Bs) x = block_quad Bs x.
+Proof. exact T_block_quad. Qed.
+
+(* ---------------- non-vacuity ---------------- *)
+(* a 2x3 rectangular mesh: neighbour lists as rectangular_neighbors_from returns them *)
+Example C07_nb_ok_rect23 : nb_ok [[1; 3]; [0; 2; 4]; [1; 5]; [0; 4]; [1; 3; 5]; [2; 4]]%nat = true.
+Proof. vm_compute. reflexivity. Qed.
+(* a multigraph with an isolated pixel and a duplicated edge *)
+Example C07_nb_ok_multi : wnb_ok [1; 2; 3; 4] [[1; 1; 2]; [0; 0]; [0]; []]%nat = true.
+Proof. vm_compute. reflexivity. Qed.
+Example C07_nonzero_vector : exists i, nth i [0; 0; 1; 0; 0; 0] 0 <> 0.
+Proof. exists 2%nat. cbn. apply R1_neq_R0. Qed.
+
+Print Assumptions C07_constant_quadratic_form.
+Print Assumptions C07_qf_constant_meaning.
+Print Assumptions C07_constant_size.
+Print Assumptions C07_constant_symmetric.
+Print Assumptions C07_constant_positive_definite.
+Print Assumptions C07_constant_zeroth_quadratic_form.
+Print Assumptions C07_constant_zeroth_size.
+Print Assumptions C07_constant_zeroth_symmetric.
+Print Assumptions C07_constant_zeroth_positive_definite.
+Print Assumptions C07_zeroth_quadratic_form.
+Print Assumptions C07_zeroth_size_symmetric.
+Print Assumptions C07_zeroth_positive_definite.
+Print Assumptions C07_weighted_quadratic_form.
+Print Assumptions C07_qf_weighted_meaning.
+Print Assumptions C07_weighted_size.
+Print Assumptions C07_weighted_symmetric.
+Print Assumptions C07_weighted_positive_definite.
+Print Assumptions C07_adaptive_weights.
+Print Assumptions C07_brightness_zeroth_quadratic_form.
+Print Assumptions C07_brightness_zeroth_psd.
+Print Assumptions C07_brightness_zeroth_size_symmetric.
+Print Assumptions C07_block_placement_in_order.
+Print Assumptions C07_assembly_size.
+Print Assumptions C07_none_is_zero_block.
+Print Assumptions C07_none_block_size.
+Print Assumptions C07_assembly_quadratic_form.
